@@ -227,6 +227,8 @@ def fill_builder(tf_value):
 
 
 ID = lambda q: f"LId(candles, {q})"
+# the close a gap is filled from: the RAW close of the previous candle (a converted candle keeps it in clean_values)
+RAWCLOSE = lambda i: f"(F(cs, 'c_close', {i}) if F(cs, 'clean', {i}) else F(cs, 'close', {i}))"
 FILL_INV = {
     "allocator": "NextId(cs) >= next0 and forall(0, LLen(candles), lambda q: " + ID("q") + " < NextId(cs))",
     "index-inside": "1 <= index and index < LLen(candles) and LLo(candles) == 0",
@@ -239,8 +241,9 @@ FILL_INV = {
                               " and F(cs, 'volume', p) == F0(cs, 'volume', p) and F(cs, 'rd', p) == F0(cs, 'rd', p))",
     "inserted-candles-are-flat-and-empty": (
         "forall(1, LLen(candles), lambda q: implies(" + ID("q") + " >= next0,"
-        " F(cs, 'open', " + ID("q") + ") == F(cs, 'close', " + ID("q - 1") + ") and F(cs, 'high', " + ID("q") + ") == F(cs, 'close', " + ID("q - 1") + ")"
-        " and F(cs, 'low', " + ID("q") + ") == F(cs, 'close', " + ID("q - 1") + ") and F(cs, 'close', " + ID("q") + ") == F(cs, 'close', " + ID("q - 1") + ")"
+        " F(cs, 'open', " + ID("q") + ") == " + RAWCLOSE(ID("q - 1")) + " and F(cs, 'high', " + ID("q") + ") == " + RAWCLOSE(ID("q - 1")) +
+        " and F(cs, 'low', " + ID("q") + ") == " + RAWCLOSE(ID("q - 1")) + " and F(cs, 'close', " + ID("q") + ") == " + RAWCLOSE(ID("q - 1")) +
+        ""
         " and F(cs, 'volume', " + ID("q") + ") == 0 and F(cs, 'rd', " + ID("q") + ") == 0))"),
     "first-and-last-are-the-input-ends": "LId(candles, 0) == 0 and LId(candles, LLen(candles) - 1) == n - 1",
     "elements-are-inputs-or-inserted": "forall(0, LLen(candles), lambda q: (0 <= " + ID("q") + " and " + ID("q") + " < n) or " + ID("q") + " >= next0)",
@@ -253,8 +256,9 @@ FILL = Contract(
                                   " and F(cs, 'volume', p) == F0(cs, 'volume', p) and F(cs, 'rd', p) == F0(cs, 'rd', p))",
         "inserted-candles-are-flat-with-zero-volume": (
             "implies(n >= 2, forall(1, LLen(result), lambda q: implies(LId(result, q) >= next0,"
-            " F(cs, 'open', LId(result, q)) == F(cs, 'close', LId(result, q - 1)) and F(cs, 'high', LId(result, q)) == F(cs, 'close', LId(result, q - 1))"
-            " and F(cs, 'low', LId(result, q)) == F(cs, 'close', LId(result, q - 1)) and F(cs, 'close', LId(result, q)) == F(cs, 'close', LId(result, q - 1))"
+            " F(cs, 'open', LId(result, q)) == " + RAWCLOSE("LId(result, q - 1)") + " and F(cs, 'high', LId(result, q)) == " + RAWCLOSE("LId(result, q - 1)") +
+            " and F(cs, 'low', LId(result, q)) == " + RAWCLOSE("LId(result, q - 1)") + " and F(cs, 'close', LId(result, q)) == " + RAWCLOSE("LId(result, q - 1)") +
+            ""
             " and F(cs, 'volume', LId(result, q)) == 0)))"),
         "ends-kept": "implies(n >= 2, LId(result, 0) == 0 and LId(result, LLen(result) - 1) == n - 1)",
     },
